@@ -3,8 +3,10 @@ PROP = dict(
         pkg="c19", level="exploration",
         technique=("property-based testing (rapid): round trips and differential against independent reference implementations "
                    "(padding, tagged-SHA-256 Merkle tree, protobuf leaf encoding, Ed25519 payload, shard schedule, reference publisher); "
-                   "adversarial single-field corruptions through the routed UnitValidator and straight into reconstruction"),
-        level_text=("Exploration: tens of thousands of generated (length, data, parity, present-subset, corruption, arrival-order) cases per run, "
+                   "adversarial single-field corruptions through the routed UnitValidator and straight into reconstruction; "
+                   "immutability oracle over a stream of messages: every value handed out / passed in is re-verified against its hand-out-time copy "
+                   "after every later operation (sequential, and concurrent under -race)"),
+        level_text=("Exploration: tens of thousands of generated (length, data, parity, present-subset, corruption, arrival-order, message-stream) cases per run, "
                     "every result compared with an explicit oracle; samples the space, does not prove absence."),
         rule=("message lengths 0..4 KiB biased to k*2*data +-{0,1,2} (raw and varint-prefixed) and to 127/128, 16383/16384; (data,parity) in 1..8 x 1..8 "
               "for create/reconstruct and Reed-Solomon (parity 0 too), committees of 2..25 Ed25519 peers (data = max(1,(N-1)/3)) for the receiver pipeline; "
@@ -13,11 +15,21 @@ PROP = dict(
               "interleaved with deliveries wrong in one field (shard byte/length/count, proof sibling/length, index, signature, committee, publisher, nonce, root, sender, "
               "duplicate); malformed protobuf units. Non-trivial = at least one data shard missing so that erasure recovery really runs (shard-0-missing counted as "
               "its own label); for the auxiliary tests: padding/varint boundary, a data shard dropped, non-power-of-two leaf count, a malformed unit that still decodes. "
+              "Result lifetime (TestPropStreamHeldResults, TestRaceStreamHeldResults): a case is a STREAM of 2..6 (thorough 2..12) such messages on one "
+              "goroutine - own (data,parity)/committee, length, publisher, nonce each; published up-front or right before first use; reconstructed in drawn / "
+              "descending / ascending / equal joined-size order (joined size = shard size x (data+parity)), some again from another subset, with failing "
+              "reconstructions (too few shards, flipped shard/root bit) in between; the units of CreatePropellerUnits / UnitFromProto / accepted by Validate and the "
+              "message, local shard and local proof of EVERY earlier reconstruction are kept and re-verified against the published original / deep copies taken at "
+              "hand-out time after every later operation and at the end of the case, and so are the caller's message slice, unit slice and pointed-to units "
+              "(direct mode passes pointers to the live units or to copies). Non-trivial there = a held result outlived a later successful reconstruction of "
+              "another message whose joined size is not larger. Concurrent variant under -race: 2..4 goroutines on 2 Ps, each with its own stream of 2..5 messages "
+              "and drawn yield points, holding all earlier results; schedule-independent oracle (every held value equals its hand-out-time copy after each own "
+              "operation and after the join) plus the race detector on delivered bytes. "
               "Distinct = distinct SHA-256 of the rendered case."),
         assumptions=["klauspost/reedsolomon arithmetic is trusted beyond the encode/drop/recover round trip",
                      "SHA-256 and Ed25519 (Go standard library) are trusted; collisions are not considered",
                      "the Processor goroutines/channels are not driven (not wired in the pinned tree: nil logger, nil event channel); its routing by message key and its "
                      "index-addressed unitsReceived slice are modelled from processor.go",
                      "committee members have Ed25519 identity peer IDs (NewValidator panics otherwise by design)"],
-        runs=[dict(run="^Test(Prop|Known)")],
+        runs=[dict(run="^Test(Prop|Known)"), dict(run="^TestRace", race=True)],
     )
